@@ -30,6 +30,16 @@ func (fr *Frame) doCall(cc *ssa.CallCommon, fnv Value, args []Value, pc *Term, s
 		return callResult{val: ex.freshResult(resT, "call", st, pc), st: st}
 	}
 	if f.Fn == nil {
+		ex.oblige("nil", "call "+exprAtPos(ex, pos), pos, pc, Neq(f.ID, RefNil()), "function value is not nil")
+		if ex.ctx.isSink(cc.Value) {
+			for _, a := range args {
+				if sl, ok := a.(SliceV); ok {
+					if w, _, isInt := isIntType(sl.Elem); isInt && w == 8 {
+						ex.ghostWrite(st, sl, sl.Len, pc)
+					}
+				}
+			}
+		}
 		return fr.unknownCall(calleeText(cc), args, pc, st, resT, pos)
 	}
 	return fr.callStatic(f.Fn, args, f.Bind, pc, st, pos, resT)
@@ -221,6 +231,14 @@ func (fr *Frame) modelWrite(buf Value, pc *Term, st *State) callResult {
 	return callResult{val: TupleV{[]Value{IntV{n}, err}}, st: st}
 }
 
+// bump increments a ghost event counter. Event counters are non-negative and
+// do not overflow 2^62 (stated assumption: no execution performs 2^62 events).
+func (ex *Exec) bump(pc, cur *Term) *Term {
+	nv := BVAdd(cur, BV(1, 64))
+	ex.assume(pc, And(BVSle(BV(0, 64), cur), BVSlt(cur, BV(1<<62, 64))))
+	return nv
+}
+
 // ghostAppend adds n to a ghost counter.
 func (ex *Exec) ghostAppend(st *State, name string, n *Term) {
 	cur := st.get("ghost|"+name, SBV(64))
@@ -234,9 +252,10 @@ func (ex *Exec) ghostWrite(st *State, sl SliceV, n *Term, pc *Term) {
 	wa := st.get("ghost|wire.bytes", SByteArr)
 	arr := ex.sliceArr(st, sl, 0, SBV(8))
 	st.set("ghost|wire.bytes", CopyArr(wa, wl, arr, sl.Off, n))
+	ex.assume(pc, And(BVSle(BV(0, 64), wl), BVSlt(wl, BV(1<<61, 64))))
 	st.set("ghost|wire.len", BVAdd(wl, n))
 	cnt := st.get("ghost|wire.calls", SBV(64))
-	st.set("ghost|wire.calls", BVAdd(cnt, BV(1, 64)))
+	st.set("ghost|wire.calls", ex.bump(pc, cnt))
 }
 
 // ---------------------------------------------------------------- builtins
@@ -391,7 +410,7 @@ func (ex *Exec) event(st *State, kind string, ref *Term, pc *Term) {
 	n := st.get("ghost|ev."+kind+".n", SBV(64))
 	a := st.get("ghost|ev."+kind+".ref", SArr(SBV(64), SRef))
 	st.set("ghost|ev."+kind+".ref", Store(a, n, ref))
-	st.set("ghost|ev."+kind+".n", BVAdd(n, BV(1, 64)))
+	st.set("ghost|ev."+kind+".n", ex.bump(pc, n))
 }
 
 // ---------------------------------------------------------------- channels
@@ -405,6 +424,14 @@ func (fr *Frame) chanRecv(ch Value, x *ssa.UnOp, pc *Term, st *State) Value {
 	v := ex.freshResult(et, "recv", st, pc)
 	if c, ok := ch.(ChanV); ok {
 		ex.recvEvent(st, c, v, pc)
+	}
+	if ex.ctx.chanDisc(x.X) == "nonnil" {
+		if p, ok := v.(PtrV); ok && p.Kind == PHeap {
+			ex.assume(pc, Neq(p.Ref, RefNil()))
+		}
+	}
+	if c, ok := ch.(ChanV); ok && ex.ctx.chanDisc(x.X) == "closeonly" {
+		ex.assume(pc, Select(st.get("chclosed", SArr(SRef, SBool)), c.Ref))
 	}
 	if x.CommaOk {
 		return TupleV{[]Value{v, BoolV{Fresh("recvok", SBool)}}}
@@ -420,7 +447,9 @@ func (ex *Exec) recvEvent(st *State, c ChanV, v Value, pc *Term) {
 		va := st.get("ghost|recv.val", SArr(SBV(64), SRef))
 		st.set("ghost|recv.val", Store(va, n, p.Ref))
 	}
-	st.set("ghost|recv.n", BVAdd(n, BV(1, 64)))
+	st.set("ghost|recv.n", ex.bump(pc, n))
+	cnt := st.get("ghost|recv.cnt", SArr(SRef, SBV(64)))
+	st.set("ghost|recv.cnt", Store(cnt, c.Ref, ex.bump(pc, Select(cnt, c.Ref))))
 }
 
 func (fr *Frame) chanSend(ch Value, v Value, chExpr ssa.Value, pc *Term, st *State, pos token.Pos) {
@@ -428,6 +457,14 @@ func (fr *Frame) chanSend(ch Value, v Value, chExpr ssa.Value, pc *Term, st *Sta
 	c, ok := ch.(ChanV)
 	if !ok {
 		return
+	}
+	if ex.ctx.chanDisc(chExpr) == "closeonly" {
+		ex.oblige("chan-protocol", exprAtPos(ex, pos), pos, pc, False, "nothing is ever sent on a close-only channel")
+	}
+	if ex.ctx.chanDisc(chExpr) == "nonnil" {
+		if p, ok := v.(PtrV); ok && p.Kind == PHeap {
+			ex.oblige("chan-protocol", exprAtPos(ex, pos), pos, pc, Neq(p.Ref, RefNil()), "only non-nil values are sent on this channel")
+		}
 	}
 	if ex.ctx.mayBeClosed(chExpr) {
 		cl := st.get("chclosed", SArr(SRef, SBool))
@@ -440,7 +477,9 @@ func (fr *Frame) chanSend(ch Value, v Value, chExpr ssa.Value, pc *Term, st *Sta
 		va := st.get("ghost|send.val", SArr(SBV(64), SRef))
 		st.set("ghost|send.val", Store(va, n, p.Ref))
 	}
-	st.set("ghost|send.n", BVAdd(n, BV(1, 64)))
+	st.set("ghost|send.n", ex.bump(pc, n))
+	cnt := st.get("ghost|send.cnt", SArr(SRef, SBV(64)))
+	st.set("ghost|send.cnt", Store(cnt, c.Ref, ex.bump(pc, Select(cnt, c.Ref))))
 }
 
 func (fr *Frame) selectInstr(x *ssa.Select, pc *Term, st *State) Value {
@@ -463,6 +502,15 @@ func (fr *Frame) selectInstr(x *ssa.Select, pc *Term, st *State) Value {
 			et := s.Chan.Type().Underlying().(*types.Chan).Elem()
 			v := ex.freshResult(et, "selrecv", st, pc)
 			res = append(res, v)
+			if ex.ctx.chanDisc(s.Chan) == "nonnil" {
+				if p, ok := v.(PtrV); ok && p.Kind == PHeap {
+					ex.assume(pc, Implies(taken, Neq(p.Ref, RefNil())))
+				}
+			}
+			if ex.ctx.chanDisc(s.Chan) == "closeonly" && isChan {
+				// nothing is ever sent on this channel: a receive succeeds only once it is closed
+				ex.assume(pc, Implies(taken, Select(cl, c.Ref)))
+			}
 			if isChan {
 				anyClosedRecv = append(anyClosedRecv, Select(cl, c.Ref))
 				// ghost: record the receive when this case is taken
@@ -497,7 +545,7 @@ func (ex *Exec) goStmt(fr *Frame, x *ssa.Go, pc *Term, st *State) {
 	}
 	ex.note("go statement: %s spawned; its body is verified separately", name)
 	n := st.get("ghost|go.n", SBV(64))
-	st.set("ghost|go.n", BVAdd(n, BV(1, 64)))
+	st.set("ghost|go.n", ex.bump(pc, n))
 }
 
 // ---------------------------------------------------------------- maps
